@@ -712,7 +712,23 @@ func (c *SpecCtx) evalCall(x *ECall) (Val, types.Type) {
 			if at == nil {
 				c.fail("lastarg: no call site of %s in this function", key.V)
 			}
-			return e.freshVal(at, "nocall.arg", c.st.Alloc), at
+			arb := e.freshVal(at, "nocall.arg", c.st.Alloc)
+			// ... unless this execution did pass through the call (it sits on some, not all, ways
+			// here): then it is the argument passed there
+			var here *ssa.BasicBlock = c.f.blk
+			if hb, ok := c.hdrBlock.(*ssa.BasicBlock); ok && hb != nil {
+				here = hb
+			}
+			if ok && lc.blk != nil && here != nil && cfgReaches(lc.blk, here) && lc.blk != here && idx < len(lc.args) && lc.args[idx] != nil {
+				if passed, okr := c.f.outReach[lc.blk.Index]; okr {
+					if rt, isT := lc.args[idx].(Term); isT {
+						if at2, isT2 := arb.(Term); isT2 && at2.Sort == rt.Sort {
+							return tIte(passed, rt, at2), at
+						}
+					}
+				}
+			}
+			return arb, at
 		}
 		if idx >= len(lc.args) || lc.args[idx] == nil {
 			c.fail("lastarg: %s has no usable argument %d", key.V, idx)
